@@ -9,11 +9,13 @@ pub struct ItemId(pub usize);
 #[verifier::external_body]
 pub struct CodegenConfig { _p: core::marker::PhantomData<()> }
 impl CodegenConfig {
+    pub uninterp spec fn s_functions(&self) -> bool;
     pub uninterp spec fn s_types(&self) -> bool;
     pub uninterp spec fn s_vars(&self) -> bool;
     pub uninterp spec fn s_methods(&self) -> bool;
     pub uninterp spec fn s_constructors(&self) -> bool;
     pub uninterp spec fn s_destructors(&self) -> bool;
+    #[verifier::external_body] pub fn functions(&self) -> (r: bool) ensures r == self.s_functions() { unimplemented!() }
     #[verifier::external_body] pub fn types(&self) -> (r: bool) ensures r == self.s_types() { unimplemented!() }
     #[verifier::external_body] pub fn vars(&self) -> (r: bool) ensures r == self.s_vars() { unimplemented!() }
     #[verifier::external_body] pub fn methods(&self) -> (r: bool) ensures r == self.s_methods() { unimplemented!() }
